@@ -125,3 +125,40 @@ Theorem src_conservation : forall es, conserved (rrun_src es).
 Proof. intro es. rewrite rrun_src_eq. apply conservation. Qed.
 Theorem src_sent_is_prefix : forall es, exists rest, concat (puts (rrun_src es)) = sent (rrun_src es) ++ rest.
 Proof. intro es. rewrite rrun_src_eq. apply sent_is_prefix. Qed.
+
+(* ---- the wake-up queue: Queue.put / Queue.get as translated (their primitive steps, in the source's order) ------------ *)
+Inductive qcall := QPut (x : nat) | QGet.
+Definition qcall_steps (c : qcall) : list qev := match c with QPut x => Queue_put x | QGet => Queue_get end.
+
+(* any interleaving of the primitive steps of any calls keeps the invariant (it holds for every list of steps) *)
+Theorem src_queue_invariant : forall es, qinv (qrun es).
+Proof. exact queue_invariant. Qed.
+
+(* between calls - after any sequence of put() and get() calls that were not interleaved with each other - no call is half
+   done, so the queue is select()-readable exactly as many times as it holds items; a get() on an empty queue blocks (its
+   steps are not enabled) *)
+Lemma whole_call_quiescent : forall c s, qinv s -> pputs s = O -> pgets s = O ->
+  let s' := fold_left qstep (qcall_steps c) s in pputs s' = O /\ pgets s' = O.
+Proof.
+  intros c [it wk pp pg gt pl] [I1 I2] P G. cbn in *. subst pp pg.
+  destruct c as [x|]; cbn.
+  - auto.
+  - destruct wk as [|w]; cbn; [auto|]. destruct it as [|y t]; cbn in *; [lia|auto].
+Qed.
+Theorem src_queue_whole_calls : forall calls,
+  let s := qrun (concat (map qcall_steps calls)) in
+  pputs s = O /\ pgets s = O /\ wake s = length (items s).
+Proof.
+  intro calls. cbv zeta.
+  assert (X : forall s, qinv s -> pputs s = O -> pgets s = O ->
+              let s' := fold_left qstep (concat (map qcall_steps calls)) s in qinv s' /\ pputs s' = O /\ pgets s' = O).
+  { induction calls as [|c t IH]; intros s I P G; cbn [map concat fold_left]; [auto|].
+    rewrite fold_left_app. 
+    assert (I' : qinv (fold_left qstep (qcall_steps c) s)).
+    { clear - I. generalize (qcall_steps c) as l. intro l. revert s I. induction l as [|e l IHl]; intros s I; cbn; [exact I|].
+      apply IHl. apply qstep_inv. exact I. }
+    destruct (whole_call_quiescent c s I P G) as [P' G']. apply IH; assumption. }
+  destruct (X qstate0) as (I & P & G); [split; reflexivity|reflexivity|reflexivity|].
+  unfold qrun. split; [exact P|]. split; [exact G|]. destruct I as [I1 _]. rewrite P, G in I1. 
+  rewrite Nat.add_0_r, Nat.add_0_r in I1. symmetry. exact I1.
+Qed.
